@@ -821,6 +821,49 @@ func main() {
 		}
 		g.shuffleCase(hs, int64(g.r.Intn(1<<30)))
 	}
+
+	// ---- 7. successful refreshes that only redistribute the weights ----
+	// the second answer has the same targets and expands to a list of the same length, only
+	// the repeat counts differ (weights permuted among the records; for lists over 100 entries:
+	// the same host strings carried by different numbers of records): the list must follow
+	reb := func(scheme string, a, b []rec, stream string) {
+		g.histCase(scheme, []event{okL(a), rd, okL(b), rd, badL(a), rd, okL(a), rd, okL(b), okL(a), okL(b), rd}, stream)
+	}
+	named := func(ws ...uint16) []rec {
+		names := []string{"blue.svc.", "green.svc.", "red.svc.", "grey.svc."}
+		rs := make([]rec, len(ws))
+		for i, x := range ws {
+			rs[i] = rec{names[i], 8080, 3, x}
+		}
+		return rs
+	}
+	for i, pr := range [][2][]uint16{
+		{{90, 10}, {10, 90}}, {{60, 40}, {40, 60}}, {{1, 2, 3}, {3, 1, 2}}, {{50, 30, 20}, {20, 50, 30}},
+		{{65535, 1, 30000}, {30000, 65535, 1}}, {{2, 1}, {1, 2}}, {{7, 7, 1, 1}, {1, 7, 1, 7}}, {{101, 0, 5}, {5, 0, 101}},
+	} {
+		reb([]string{"http", "", "https"}[i%3], named(pr[0]...), named(pr[1]...), "rebalance")
+	}
+	bigReb := func(shift int) []rec {
+		var rs []rec
+		for h := 0; h < 40; h++ {
+			for k := 0; k < []int{5, 3, 1}[(h+shift)%3]; k++ {
+				rs = append(rs, rec{fmt.Sprintf("n%d.svc.", h), 80, 0, 1})
+			}
+		}
+		return rs
+	}
+	reb("http", bigReb(0), bigReb(1), "rebalance-big")
+	for i := 0; i < 40*mult; i++ {
+		a := g.records(2 + g.r.Intn(5))
+		for j := range a {
+			a[j].Target, a[j].Prio = fmt.Sprintf("t%d.svc.", j), 0
+		}
+		b := append([]rec(nil), a...)
+		for j, k := range g.r.Perm(len(a)) {
+			b[j].Weight = a[k].Weight
+		}
+		reb("http", a, b, "rebalance")
+	}
 	w.Meta["refresh_watchdog_timeouts"] = refreshTimeouts
-	w.Close(fmt.Sprintf("corpus (30 weight vectors, 26 record sets incl. 100..1000 records, IPv6 and non-UTF-8 targets, 13 histories); exhaustive: compact/normalize/gcd on all vectors over {0,1,2,3,50,100,101,65535} of length 1..%d and resolve on all record lists of length 1..%d over priority {0,1} x weight {0,1,2,101,65534,65535} (3 records: {0,1,101,65535}) x target {a,b}; priority tiers at the boundaries: %d record sets (priority p / p+1 / p+2 for p in {0,7,65533}, lowest tier weights {0},{0,0},{0,1}, next tier weight 65535/65534/1/0 with its target sorting before / after / equal on another port, both input orders) and 2 histories with a drained lowest tier, plus random tiers (adjacent priorities, boundary weights); random: weight vectors (1..130, some 101..1000), record sets (duplicate targets, priorities 0..3 / 65535, ports 0..65535), histories of up to 14 events (successful / failing lookups with and without records, reads, callers scribbling over returned slices) through NewDetailedWithScheme with a scripted lookup; malformed: arbitrary byte targets, odd schemes, nil answers; shuffle: sd.NewRandomFixedSubscriber on 0..400 hosts with the math/rand source seeded, compared element by element with the model applied to the rand.Perm result of the same seed. nontrivial = compact changes the weights / several priorities or weights / a failed refresh after a success or a scribble", maxLen, maxRec, nTiers), true)
+	w.Close(fmt.Sprintf("corpus (30 weight vectors, 26 record sets incl. 100..1000 records, IPv6 and non-UTF-8 targets, 13 histories); exhaustive: compact/normalize/gcd on all vectors over {0,1,2,3,50,100,101,65535} of length 1..%d and resolve on all record lists of length 1..%d over priority {0,1} x weight {0,1,2,101,65534,65535} (3 records: {0,1,101,65535}) x target {a,b}; priority tiers at the boundaries: %d record sets (priority p / p+1 / p+2 for p in {0,7,65533}, lowest tier weights {0},{0,0},{0,1}, next tier weight 65535/65534/1/0 with its target sorting before / after / equal on another port, both input orders) and 2 histories with a drained lowest tier, plus random tiers (adjacent priorities, boundary weights); random: weight vectors (1..130, some 101..1000), record sets (duplicate targets, priorities 0..3 / 65535, ports 0..65535), histories of up to 14 events (successful / failing lookups with and without records, reads, callers scribbling over returned slices) through NewDetailedWithScheme with a scripted lookup; malformed: arbitrary byte targets, odd schemes, nil answers; rebalance: histories whose successive successful answers keep the targets and the list length and only redistribute the weights (blue/green 90/10 -> 10/90, permuted weights, a list over 100 entries with the duplicates moved); shuffle: sd.NewRandomFixedSubscriber on 0..400 hosts with the math/rand source seeded, compared element by element with the model applied to the rand.Perm result of the same seed. nontrivial = compact changes the weights / several priorities or weights / a failed refresh after a success or a scribble", maxLen, maxRec, nTiers), true)
 }
